@@ -37,6 +37,7 @@ def run(chk):
     chk.section("side-effect-chain", lambda: p2(chk))
     chk.section("operand-order", lambda: p3(chk))
     chk.section("table", lambda: p4(chk))
+    chk.section("branch-builder", lambda: p1(chk))
     for i in range(NCHUNK):
         chk.section(f"bounded-{i}", lambda i=i: bounded(chk, i))
     chk.expected_min_obligations = 40
@@ -277,6 +278,128 @@ def p3(chk):
                                              and [x for x in p.value[0] if x[0] == "op"][-1][2] == tuple(("wire", k) for k in p.value[1])),
                         func=f"{EC}:ExprCompiler.visit_GlobalCall")
     chk.use_engine(e)
+
+
+# ------------------------------------------------------------------------------ P1
+def p1(chk):
+    """BranchBuilder (cfg/builder.py) on every branching expression of a grammar (and / or / not /
+    conditional expressions / comparisons and chained comparisons over call atoms, nesting depth 2):
+    the real builder is executed by pyvc; the CFG fragment it produces is evaluated for EVERY
+    valuation of the atoms (statements of a block in order, then its predicate, then the false/true
+    successor) and compared with CPython's own evaluation of the expression: same truth value,
+    same sequence of atom evaluations (each atom at most once, only those Python evaluates)."""
+    import ast as _ast
+    from pyvc.astmodel import to_real
+    from .common import ast_from_source
+    B = "guppylang_internals.cfg.builder"
+    e = mk_engine(chk)
+    for q in ("BranchBuilder.visit_BoolOp", "BranchBuilder.visit_UnaryOp", "BranchBuilder.visit_Compare", "BranchBuilder.visit_IfExp", "BranchBuilder.generic_visit",
+              "BranchBuilder.visit_Constant", "BranchBuilder.add_branch", "ExprBuilder.build", "ExprBuilder.generic_visit", "ExprBuilder.visit_IfExp"):
+        e.func_info(B, q)
+    e.global_presets = {(B, "tmp_vars"): [f"%tmp{i}" for i in range(400)]}
+    e.models[f"{B}:is_comptime_expression"] = lambda it, a, k: None
+
+    def exprs():
+        Bs = [f"b{i}()" for i in range(4)]
+        Ns = [f"n{i}()" for i in range(4)]
+
+        def gen(depth, pb, pn):
+            if pb:
+                yield pb[0], pb[1:], pn
+            if len(pn) >= 2:
+                yield f"{pn[0]} < {pn[1]}", pb, pn[2:]
+            if len(pn) >= 3:
+                yield f"{pn[0]} < {pn[1]} <= {pn[2]}", pb, pn[3:]
+            if len(pn) >= 4:
+                yield f"{pn[0]} < {pn[1]} <= {pn[2]} != {pn[3]}", pb, pn[4:]
+            if depth == 0:
+                return
+            for l, pb1, pn1 in gen(depth - 1, pb, pn):
+                yield f"not ({l})", pb1, pn1
+                for r, pb2, pn2 in gen(depth - 1, pb1, pn1):
+                    yield f"({l}) and ({r})", pb2, pn2
+                    yield f"({l}) or ({r})", pb2, pn2
+                    for x, pb3, pn3 in gen(0, pb2, pn2):
+                        yield f"({r}) if ({l}) else ({x})", pb3, pn3
+        seen = []
+        for ex, _, _ in gen(2, Bs, Ns):
+            if ex not in seen:
+                seen.append(ex)
+        return seen
+    all_ex = exprs()
+    if chk.tier != "thorough":
+        all_ex = [x for i, x in enumerate(all_ex) if i < 60 or i % 9 == 0]
+    else:
+        all_ex = [x for i, x in enumerate(all_ex) if i < 200 or i % 3 == 0]
+    import itertools as _it
+    import re as _re
+    n_ok = 0
+    for ex in all_ex:
+        def t(it, ex=ex):
+            m = e.module(B)
+            it.ctx.mod_globals(m)["tmp_vars"] = [f"%tmp{i}" for i in range(60)]     # a fresh supply of temporary names per run
+            CFG = it.lookup_global(e.module("guppylang_internals.cfg.cfg"), "CFG")
+            BBu = it.lookup_global(m, "BranchBuilder")
+            cfg = it.call(CFG, [], {})
+            bb = it.call_method(cfg, "new_bb", [])
+            tb, fb = it.call_method(cfg, "new_bb", []), it.call_method(cfg, "new_bb", [])
+            node = ast_from_source(it, ex, "eval").fields["body"]
+            it.call(it.getattr(BBu, "add_branch"), [node, cfg, bb, tb, fb], {})
+            return bb, tb, fb
+        paths = e.explore(t)
+
+        def post(p, ex=ex):
+            if p.kind != "return":
+                return z3.BoolVal(False)
+            bb0, tb, fb = p.value
+            atoms = sorted(set(_re.findall(r"\b([bn]\d)\(\)", ex)))
+            doms = [([True, False] if a[0] == "b" else [0, 1, 2]) for a in atoms]
+            for vals in _it.product(*doms):
+                def env_for(trace):
+                    return {a: (lambda a=a, v=v: (trace.append(a), v)[1]) for a, v in zip(atoms, vals)}
+                t_py = []
+                want = bool(eval(ex, env_for(t_py)))
+                t_cfg = []
+                env = env_for(t_cfg)
+                cur, steps = bb0, 0
+                while cur is not tb and cur is not fb:
+                    steps += 1
+                    if steps > 50:
+                        return z3.BoolVal(False)
+                    for st in cur.fields["statements"]:
+                        r = to_real(st)
+                        if not (isinstance(r, _ast.Assign) and len(r.targets) == 1 and isinstance(r.targets[0], _ast.Name)):
+                            return z3.BoolVal(False)
+                        env[r.targets[0].id.replace("%", "_")] = eval(compile(_ast.fix_missing_locations(_ast.Expression(_rename(r.value))), "<cfg>", "eval"), env)
+                    succ = cur.fields["successors"]
+                    pred = cur.fields["branch_pred"]
+                    if pred is None:
+                        if len(succ) != 1:
+                            return z3.BoolVal(False)
+                        cur = succ[0]
+                    else:
+                        v = eval(compile(_ast.fix_missing_locations(_ast.Expression(_rename(to_real(pred)))), "<cfg>", "eval"), env)
+                        if len(succ) != 2:
+                            return z3.BoolVal(False)
+                        cur = succ[1] if v else succ[0]          # successors = [false branch, true branch]
+                if (cur is tb) != want or t_cfg != t_py:
+                    return z3.BoolVal(False)
+            return z3.BoolVal(True)
+        chk.prove_paths(f"BranchBuilder[{ex}]:for-every-valuation-the-CFG-fragment-reaches-the-branch-Python-takes-evaluating-exactly-Python's-atom-sequence", paths, post,
+                        func=f"{B}:BranchBuilder.add_branch", replay=lambda m_, ex=ex: {"script": ORACLE + REPLAY_ONE, "input": {"kind": "b", "expr": ex}})
+        n_ok += 1
+    chk.record("BranchBuilder:expressions-explored", n_ok >= 60, str(n_ok), kind="reachability")
+    chk.use_engine(e)
+
+
+def _rename(node):
+    """temporaries are called %tmpN: not a Python identifier, rename for evaluation"""
+    import ast as _ast
+    for n in _ast.walk(node):
+        if isinstance(n, _ast.Name):
+            n.id = n.id.replace("%", "_")
+            n.ctx = _ast.Load()          # the builder stores the class ast.Load, not an instance
+    return node
 
 
 # ------------------------------------------------------------------------------ P4
